@@ -38,7 +38,7 @@ ENTRIES_CALL_ONLY = ["retry.ctx", "policy.ctx", "retrypolicy.ctx", "decorator"]
 # ------------------------------------------------------------------------------------------------
 def gen_policy(rng, o):
     p = {}
-    p["max_attempts"] = rng.choice(o.get("max_attempts", [-1, 0, 1, 1, 2, 2, 3, 3, 4, 5, 7]))
+    p["max_attempts"] = rng.choice(o.get("max_attempts", [-1, 0] + [1, 2, 2, 3, 3, 3, 4, 4, 5, 6, 8] * 3))
     tight = rng.random() < o.get("p_tight_deadline", 0.35)
     p["deadline"] = rng.choice([0, 1, 3, 5, 8, 13, 20]) if tight else rng.choice([10**6, 64 * 60, 2**33])
     p["max_unknown"] = rng.choice([None, 0, 1, 2, 2, 3])
@@ -47,7 +47,7 @@ def gen_policy(rng, o):
         for k in rng.sample(KLASSES, rng.randint(1, 3)):
             p["per_class"][k] = rng.choice([0, 1, 1, 2, 3])
     # strategies: default present or not, some per-class entries; each context-style or legacy
-    p["strat_default"] = rng.choice([False, False, True, None]) if rng.random() < 0.85 else None
+    p["strat_default"] = rng.choice([False, False, False, True, True, None]) if rng.random() < 0.9 else None
     p["strat_tab"] = {}
     if rng.random() < 0.5 or p["strat_default"] is None:
         for k in rng.sample(KLASSES, rng.randint(1, 4)):
@@ -62,7 +62,7 @@ def gen_policy(rng, o):
 def gen_env(rng, p, c, o):
     n_ops = max(1, min(9, (p["max_attempts"] if p["max_attempts"] > 0 else 1) + rng.randint(0, 1)))
     pool = rng.sample(KLASSES, rng.randint(1, 3))
-    if rng.random() < 0.7:
+    if rng.random() < 0.8:
         pool = [k for k in pool if k in RETRYABLE] or [rng.choice(RETRYABLE)]
     dl = p["deadline"]
     durs = [0, 0, 1, 2] + ([dl - 1, dl, dl + 1, max(0, dl // 2)] if dl < 1000 else [5, 64])
